@@ -318,7 +318,9 @@ def step (d : DS) (op : List String) (implObs implSum : String) : String × DS :
   let ubOut (m : String) : String × DS := ("MODEL-UB " ++ m, { d with ub := d.ub + 1 })
   match op with
   | "new" :: caps =>
-    (match (World.withCapacity d.cfg d.ids d.ncols (caps.map natOf) : WOut Val Unit) with
+    -- an ops file generated under another arity may carry fewer capacities: missing ones are 0
+    let capsN := caps.map natOf ++ List.replicate (d.narch - caps.length) 0
+    (match (World.withCapacity d.cfg d.ids d.ncols capsN : WOut Val Unit) with
      | .ok _ w => ("ok", { d with worlds := [some w], cur := 0, hs := [] })
      | .panic m _ => ("panic " ++ panicClass m, d)
      | .ub m => ubOut m)
